@@ -193,7 +193,7 @@ def ems_case(obs, rng, conv, spec):
     kw = {'cf1d': dict(maxn=3), 'cf2d': dict(maxn=3, bowtie=False), 'shoc_simple': dict(maxn=3, bowtie=False),
           'shoc_standard': dict(maxn=3), 'ugrid': dict(maxn=2)}[conv]
     model = make(rng, conv, **kw)
-    depthgen.dress(model, rng, conv, recognisable=True, same_dim=0.1, bounds_p=0.4, per_group=(1, 1), plain=(0, 1),
+    depthgen.dress(model, rng, conv, recognisable=True, same_dim=0.3, bounds_p=0.4, per_group=(1, 1), plain=(0, 1),
                    kinds=[model.default_kind] + [k for k in model.kinds if k != model.default_kind][:1], max_levels=8)
     axes = model.depth_info['axes']
     ds = add_tags(depthgen.encode(model), axes)
@@ -206,9 +206,14 @@ def ems_case(obs, rng, conv, spec):
         detected = obs.call('depth_coordinates', lambda: sorted(str(c.name) for c in ems.depth_coordinates))
     if isinstance(detected, Failed):
         return
-    if detected != sorted(a['name'] for a in axes):
-        obs.cls('ems-detects-other-depth-coordinates-skipped')       # C11 territory; nothing decided here
+    # every generated axis carries the attributes the convention documents for depth coordinates (positive / axis Z /
+    # standard_name depth, or the SHOC names): "every depth coordinate" of dataset.ems.normalize_depth_variables() is
+    # exactly this set - a coordinate that is left out is never normalised
+    if not obs.expect(detected == sorted(a['name'] for a in axes), 'dataset.ems.depth_coordinates are exactly the depth coordinates of the dataset',
+                      lambda: {'detected': detected, 'depth coordinates': sorted(a['name'] for a in axes),
+                               'dims': {a['name']: a['dim'] for a in axes}}, mech='depth-coordinates-detection'):
         return
+    obs.cls('ems-depth-coordinates-as-generated')
     from emsarray.operations import depth
 
     def call_ems(dataset, a, b):
